@@ -378,6 +378,21 @@ func TestC19(t *testing.T) {
 						}
 					}
 				}
+				// the voting power of the validator set: only at the tip (for a past height the application selects the set
+				// with the limits in force now, so that answer is not a function of the height alone and is not re-asked)
+				{
+					want := int64(0)
+					for _, e := range c.W.selectValidators(c.W.Delegs, c.W.Params) {
+						want += e.Power
+					}
+					for _, at := range []int64{h, 0} {
+						ans := ask(c.Sim, "stakes/voting_power", nil, at)
+						if got, err := strconv.ParseInt(string(ans.Value), 10, 64); ans.Code != 0 || err != nil || got != want {
+							fail("height %d: stakes/voting_power (asked with height %d) answers %s (code %d), the committed delegatees and limits give %d", h, at, trunc(string(ans.Value), 40), ans.Code, want)
+						}
+					}
+					st.label("voting_power_at_tip_compared", 1)
+				}
 				if verr != nil {
 					return verr
 				}
